@@ -76,7 +76,7 @@ impl Prop for P {
         let infl = (input.clone(), proptest::collection::vec(istep, 1..12), any::<bool>()).prop_map(|(input, steps, end_align)| Case::Inflate { input, steps, end_align });
         let one = (recipe(30_000, 3), -1i8..=10, prop_oneof![Just(0i32), -40i32..=40, -3000i32..=3000], any::<bool>()).prop_map(|(data, level, dest_delta, end_align)| Case::OneShot { data, level, dest_delta, end_align });
         let unc = (input.clone(), prop_oneof![0u32..=64, 0u32..=70_000], any::<bool>()).prop_map(|(input, dest_len, end_align)| Case::Uncompress { input, dest_len, end_align });
-        let tinfl = (input, proptest::bits::u32::masked(1 | 2 | 4 | 8 | 64), prop_oneof![0u32..=64, 0u32..=70_000], 0u32..=40, 0u8..3, any::<bool>()).prop_map(|(input, flags, out_len, start, mode, end_align)| Case::Tinfl { input, flags, out_len, start, mode, end_align });
+        let tinfl = (input, proptest::bits::u32::masked(1 | 2 | 4 | 8 | 64), prop_oneof![2 => Just(0u32), 4 => 0u32..=64, 4 => 0u32..=70_000], 0u32..=40, 0u8..4, any::<bool>()).prop_map(|(input, flags, out_len, start, mode, end_align)| Case::Tinfl { input, flags, out_len, start, mode, end_align });
         let tdefl = (recipe(30_000, 3), -1i8..=10, any::<bool>(), 0u8..=4, 0u8..4, proptest::collection::vec(prop_oneof![0u32..=3, 1u32..=3000], 0..6), prop_oneof![0u32..=64, 0u32..=50_000], any::<bool>()).prop_map(|(data, level, zlib, strategy, mode, chunks, out_len, end_align)| Case::Tdefl { data, level, zlib, strategy, mode, chunks, out_len, end_align });
         let par = (-3i32..=13, 0i32..=9, prop_oneof![Just(15i32), Just(-15i32), -16i32..=16], 0i32..=10, -1i32..=6, -1i32..=7).prop_map(|(level, method, window, mem_level, strategy, flush)| Case::Params { level, method, window, mem_level, strategy, flush });
         prop_oneof![4 => defl, 4 => infl, 2 => one, 2 => unc, 3 => tinfl, 3 => tdefl, 2 => par].boxed()
@@ -99,7 +99,7 @@ impl Prop for P {
     fn crash_sig(case: &Case) -> Option<String> {
         match case {
             Case::Misuse { kind } => Some(format!("c17:crash:misuse:{}", misuse_name(*kind))),
-            Case::Tinfl { mode, .. } => Some(format!("c17:crash:tinfl-mode{mode}")),
+            Case::Tinfl { mode, .. } => Some(format!("c17:crash:tinfl-mode{}", mode % 4)),
             Case::Tdefl { mode, .. } => Some(format!("c17:crash:tdefl-mode{mode}")),
             Case::Deflate { .. } => Some("c17:crash:mz_deflate".into()),
             Case::Inflate { .. } => Some("c17:crash:mz_inflate".into()),
@@ -283,7 +283,44 @@ fn c_uncompress(input: &AnyInput, dest_len: usize, end_align: bool, cx: &mut Ctx
 fn c_tinfl(input: &AnyInput, flags: u32, out_len: usize, start: usize, mode: u8, end_align: bool, cx: &mut Ctx) -> Check {
     let Some((data, _)) = input.bytes(cx) else { return Ok(()) };
     let gin = GuardBuf::from_slice(&data, al(end_align));
-    match mode % 3 {
+    match mode % 4 {
+        3 => {
+            // tinfl_decompress driven like a C caller would: input in chunks, one output buffer that is
+            // (when the stream is valid) exactly as large as the decompressed data, out_buf_next advancing
+            let zl = flags & TINFL_FLAG_PARSE_ZLIB_HEADER != 0;
+            let base = (flags & (TINFL_FLAG_PARSE_ZLIB_HEADER | TINFL_FLAG_COMPUTE_ADLER32)) | TINFL_FLAG_USING_NON_WRAPPING_OUTPUT_BUF;
+            let total = match if zl { miniz_oxide::inflate::decompress_to_vec_zlib(&data) } else { miniz_oxide::inflate::decompress_to_vec(&data) } {
+                Ok(v) => v.len() + [0usize, 0, 1, 5][out_len % 4],
+                Err(_) => out_len,
+            };
+            let chunk = start + 1;
+            let gout = GuardBuf::new(total, al(end_align));
+            let mut d = tinfl_decompressor::default();
+            let mut r = DecompressorOxide::new();
+            let mut ro = vec![0u8; total];
+            let (mut ipos, mut opos) = (0usize, 0usize);
+            let mut calls = 0;
+            loop {
+                let take = chunk.min(data.len() - ipos);
+                let fl = base | if ipos + take < data.len() { TINFL_FLAG_HAS_MORE_INPUT } else { 0 };
+                let gi = GuardBuf::from_slice(&data[ipos..ipos + take], al(end_align));
+                let mut in_sz = take;
+                let mut out_sz = total - opos;
+                // SAFETY: guard buffers; next pointer inside (or one past) the buffer
+                let st = guard(|| unsafe { tinfl_decompress(&mut d, gi.ptr(), &mut in_sz, gout.ptr(), gout.ptr().add(opos), &mut out_sz, fl) }).map_err(|pm| Violation::new(panic_sig("c17:tinfl_decompress", &pm), format!("tinfl_decompress unwound: {pm}")))?;
+                let (rs, rin, rout) = decompress(&mut r, &data[ipos..ipos + take], &mut ro, opos, fl);
+                calls += 1;
+                vensure!(st == rs as i32 && in_sz == rin && out_sz == rout, "c17:tinfl_decompress-differs", "call #{calls} (in {take}, out_pos {opos} of {total}): tinfl_decompress -> ({st}, {in_sz}, {out_sz}); core::decompress -> ({}, {rin}, {rout})", rs as i32);
+                vensure!(gout.as_slice()[opos..opos + rout] == ro[opos..opos + rout], "c17:tinfl_decompress-bytes", "bytes differ");
+                ipos += rin;
+                opos += rout;
+                if !(st == 1 || st == 2) || (st == 2 && opos == total) || calls > data.len() + total + 16 {
+                    break;
+                }
+            }
+            cx.evals(calls as u64);
+            cx.class("fn:tinfl_decompress(chunked)");
+        }
         0 => {
             // tinfl_decompress: out_buf_start .. out_buf_next .. + *out_buf_size
             let flat = flags & TINFL_FLAG_USING_NON_WRAPPING_OUTPUT_BUF != 0;
